@@ -1,5 +1,6 @@
 import ExoVerif.Proofs.Ledger
 import ExoVerif.Proofs.LedgerSlash
+import ExoVerif.Proofs.LedgerReach
 /-!
 # C01 — Restaked-asset ledger conservation: no operation creates value
 
@@ -190,5 +191,251 @@ theorem C01_release_value {s s' : L} {k : RecKey} (h : release s k = .ok s') (a 
   split at h
   · cases h
   · injection h with h; subst h; rfl
+
+
+/-! ## every finite history -/
+
+/-- the operations of the ledger (LST/NST-style assets; the native token's own statement is
+`EscrowCovers`). `slash o inf p` is SlashAssets for the re-based, capped proportion `p`. -/
+inductive LOp where
+  | deposit (st : SID) (a : AID) (x : Int)
+  | withdraw (st : SID) (a : AID) (x : Int)
+  | delegate (st : SID) (a : AID) (o : OID) (x : Int)
+  | undelegate (st : SID) (a : AID) (o : OID) (x : Int) (n : Nat) (hash : String)
+  | associate (st : SID) (o : OID)
+  | dissociate (st : SID)
+  | hold (k : RecKey)
+  | release (k : RecKey)
+  | blockEnd
+  | slash (o : OID) (inf : Nat) (p : Dec)
+
+/-- one step with transaction semantics: a rejected operation is not a step -/
+def lstep (s : L) : LOp → L
+  | .deposit st a x => match deposit s st a x with | .ok s' => s' | .error _ => s
+  | .withdraw st a x => match withdraw s st a x with | .ok s' => s' | .error _ => s
+  | .delegate st a o x => match delegate s st a o x with | .ok s' => s' | .error _ => s
+  | .undelegate st a o x n h => match undelegate s st a o x n h with | .ok s' => s' | .error _ => s
+  | .associate st o => match associate s st o with | .ok s' => s' | .error _ => s
+  | .dissociate st => match dissociate s st with | .ok s' => s' | .error _ => s
+  | .hold k => hold s k
+  | .release k => match release s k with | .ok s' => s' | .error _ => s
+  | .blockEnd => nextBlock (endBlock s)
+  | .slash o inf p => slashAssets s o inf p
+
+/-- what the environment guarantees about an operation when it is issued: undelegations carry a
+nonce no live record uses (LayerZero nonce discipline, see C03/F-03a); a slash comes with a
+proportion in [0,1] and meets non-negative pools and records -/
+def OpOk (s : L) : LOp → Prop
+  | .undelegate _ _ _ _ n _ => FreshNonce s n
+  | .slash _ _ p => UnitP p ∧ RecsNonneg s.recs ∧ PoolsNonneg s.pools
+  | _ => True
+
+def AllOk : L → List LOp → Prop
+  | _, [] => True
+  | s, op :: rest => OpOk s op ∧ AllOk (lstep s op) rest
+
+/-- C01, one step: for every restaked (non-native) asset, value − deposits + withdrawals + slashed is
+unchanged by every operation, accepted or rejected; the record stores stay consistent. -/
+theorem C01_net_step (s : L) (op : LOp) (a : AID) (ha : a ≠ nativeAID) (hi : RecInv s) (hok : OpOk s op) :
+    net (lstep s op) a = net s a ∧ RecInv (lstep s op) := by
+  cases op with
+  | deposit st a0 x =>
+    simp only [lstep]; split
+    · rename_i s' h
+      refine ⟨?_, ?_⟩
+      · have hv := (C01_deposit_value a h).1
+        unfold deposit at h
+        simp only [bind, Except.bind, pure, Except.pure, throw, throwThe, MonadExceptOf.throw] at h
+        split at h
+        · cases h
+        · split at h
+          · cases h
+          · split at h
+            · cases h
+            · rename_i s1 h1
+              split at h
+              · cases h
+              · rename_i s2 h2
+                injection h with h
+                obtain ⟨t, _, hs2⟩ := updTotal_ok h2
+                have g : ghosts s2 = ghosts s := by have g0 := updStaker_ghosts h1; rw [hs2]; exact g0
+                unfold ghosts at g; injection g with g1 g23; injection g23 with g2 g3
+                unfold net
+                rw [hv, ← h]
+                simp only [getD_ghostAdd, g1, g2, g3]; split <;> omega
+      · unfold deposit at h
+        simp only [bind, Except.bind, pure, Except.pure, throw, throwThe, MonadExceptOf.throw] at h
+        split at h
+        · cases h
+        · split at h
+          · cases h
+          · split at h
+            · cases h
+            · rename_i s1 h1
+              split at h
+              · cases h
+              · rename_i s2 h2
+                injection h with h
+                obtain ⟨t, _, hs2⟩ := updTotal_ok h2
+                obtain ⟨r1, r2, r3, _⟩ := updStaker_recs h1
+                rw [← h]
+                exact recInv_congr hi (by rw [hs2]; exact r1) (by rw [hs2]; exact r2) (by rw [hs2]; exact r3)
+    · exact ⟨rfl, hi⟩
+  | withdraw st a0 x =>
+    simp only [lstep]; split
+    · rename_i s' h
+      refine ⟨?_, ?_⟩
+      · have hv := (C01_withdraw_value a h).1
+        unfold withdraw at h
+        simp only [bind, Except.bind, pure, Except.pure, throw, throwThe, MonadExceptOf.throw] at h
+        split at h
+        · cases h
+        · split at h
+          · cases h
+          · split at h
+            · cases h
+            · rename_i s1 h1
+              split at h
+              · cases h
+              · rename_i s2 h2
+                injection h with h
+                obtain ⟨t, _, hs2⟩ := updTotal_ok h2
+                have g : ghosts s2 = ghosts s := by have g0 := updStaker_ghosts h1; rw [hs2]; exact g0
+                unfold ghosts at g; injection g with g1 g23; injection g23 with g2 g3
+                unfold net
+                rw [hv, ← h]
+                simp only [getD_ghostAdd, g1, g2, g3]; split <;> omega
+      · unfold withdraw at h
+        simp only [bind, Except.bind, pure, Except.pure, throw, throwThe, MonadExceptOf.throw] at h
+        split at h
+        · cases h
+        · split at h
+          · cases h
+          · split at h
+            · cases h
+            · rename_i s1 h1
+              split at h
+              · cases h
+              · rename_i s2 h2
+                injection h with h
+                obtain ⟨t, _, hs2⟩ := updTotal_ok h2
+                obtain ⟨r1, r2, r3, _⟩ := updStaker_recs h1
+                rw [← h]
+                exact recInv_congr hi (by rw [hs2]; exact r1) (by rw [hs2]; exact r2) (by rw [hs2]; exact r3)
+    · exact ⟨rfl, hi⟩
+  | delegate st a0 o x =>
+    simp only [lstep]; split
+    · rename_i s' h
+      obtain ⟨g, r1, r2, r3, _⟩ := delegate_frame h
+      unfold ghosts at g; injection g with g1 g23; injection g23 with g2 g3
+      obtain ⟨h1, h2⟩ := C01_delegate_value a h
+      have hv : value s' a = value s a := by
+        by_cases hn : a0 = nativeAID
+        · rw [(h2 hn).1]; have : ¬ a0 = a := fun e => ha (e ▸ hn); simp [this]
+        · exact (h1 hn).1
+      exact ⟨by unfold net; rw [hv, g1, g2, g3], recInv_congr hi r1 r2 r3⟩
+    · exact ⟨rfl, hi⟩
+  | undelegate st a0 o x n hash =>
+    simp only [lstep]; split
+    · rename_i s' h
+      have g := undelegate_ghosts h
+      unfold ghosts at g; injection g with g1 g23; injection g23 with g2 g3
+      obtain ⟨hv, hi', _⟩ := undelegate_spec hi hok h
+      exact ⟨by unfold net; rw [hv a, g1, g2, g3], hi'⟩
+    · exact ⟨rfl, hi⟩
+  | associate st o =>
+    simp only [lstep]; split
+    · rename_i s' h
+      unfold associate at h
+      simp only [bind, Except.bind, pure, Except.pure, throw, throwThe, MonadExceptOf.throw] at h
+      split at h
+      · cases h
+      · split at h
+        · cases h
+        · split at h
+          · cases h
+          · split at h
+            · cases h
+            · rename_i s1 h1
+              injection h with h
+              obtain ⟨v, ⟨r1, r2, r3, _⟩, g1, g2, g3, _⟩ := value_foldlM_opShare _ o (fun r => r.share) a h1
+              rw [← h]
+              exact ⟨by unfold net value at *; simp only []; rw [g1, g2, g3]; omega, recInv_congr hi r1 r2 r3⟩
+    · exact ⟨rfl, hi⟩
+  | dissociate st =>
+    simp only [lstep]; split
+    · rename_i s' h
+      unfold dissociate at h
+      simp only [bind, Except.bind, pure, Except.pure, throw, throwThe, MonadExceptOf.throw] at h
+      split at h
+      · cases h
+      · rename_i o ho
+        split at h
+        · cases h
+        · rename_i s1 h1
+          injection h with h
+          obtain ⟨v, ⟨r1, r2, r3, _⟩, g1, g2, g3, _⟩ := value_foldlM_opShare _ o (fun r => r.share.neg) a h1
+          rw [← h]
+          exact ⟨by unfold net value at *; simp only []; rw [g1, g2, g3]; omega, recInv_congr hi r1 r2 r3⟩
+    · exact ⟨rfl, hi⟩
+  | hold k => exact ⟨rfl, recInv_congr hi rfl rfl rfl⟩
+  | release k =>
+    simp only [lstep]; split
+    · rename_i s' h
+      unfold release at h
+      simp only [] at h
+      split at h
+      · cases h
+      · injection h with h; rw [← h]; exact ⟨rfl, recInv_congr hi rfl rfl rfl⟩
+    · exact ⟨rfl, hi⟩
+  | blockEnd =>
+    simp only [lstep]
+    have g := endBlock_ghosts s
+    unfold ghosts at g; injection g with g1 g23; injection g23 with g2 g3
+    refine ⟨?_, recInv_congr (endBlock_spec hi).2.1 rfl rfl rfl⟩
+    unfold net; rw [C01_endBlock_value hi a ha, g1, g2, g3]
+  | slash o inf p =>
+    simp only [lstep]
+    obtain ⟨hp, hr, hpl⟩ := hok
+    exact ⟨slashAssets_net s o inf p a hp hr hpl, recInv_slashAssets o inf p hi⟩
+
+/-- **C01 over every finite history**: for every non-native asset, after any finite interleaving of
+deposits, withdrawals, delegations, undelegations, associations, dissociations, holds, releases,
+block ends and slashes (each issued under `OpOk`), the sum of withdrawable balances, operator pools
+and amounts owed by pending undelegations equals what it was plus deposits minus withdrawals minus
+slashed amounts accumulated since; i.e. only a deposit ever increases it. -/
+theorem C01_reachable (s : L) (ops : List LOp) (a : AID) (ha : a ≠ nativeAID) (hi : RecInv s)
+    (hok : AllOk s ops) : net (ops.foldl lstep s) a = net s a ∧ RecInv (ops.foldl lstep s) := by
+  induction ops generalizing s with
+  | nil => exact ⟨rfl, hi⟩
+  | cons op rest ih =>
+    simp only [List.foldl_cons]
+    obtain ⟨h1, h2⟩ := hok
+    obtain ⟨n1, i1⟩ := C01_net_step s op a ha hi h1
+    obtain ⟨n2, i2⟩ := ih (lstep s op) i1 h2
+    exact ⟨by rw [n2, n1], i2⟩
+
+/-! non-vacuity: a concrete state meets the hypotheses, a concrete history with an accepted
+undelegation, a completed record and a slash is `AllOk`, and the conclusion is checked on it. -/
+
+private def e1 : L :=
+  { height := 5, unbonding := 2, totals := [("a", 100)], operators := ["o1", "o2"], clientChains := [],
+    stakers := [(("s", "a"), ⟨100, 0, 0⟩)],
+    pools := [(("o1", "a"), ⟨50, 0, ⟨50000000000000000000⟩, ⟨0⟩⟩), (("o2", "a"), ⟨50, 0, ⟨50000000000000000000⟩, ⟨0⟩⟩)],
+    deleg := [(("s", "a", "o1"), ⟨⟨50000000000000000000⟩, 0⟩), (("s", "a", "o2"), ⟨⟨50000000000000000000⟩, 0⟩)],
+    slist := [(("o1", "a"), ["s"]), (("o2", "a"), ["s"])], assoc := [], recs := [], sidx := [], pidx := [],
+    holds := [], bal := [], escrow := 0, gDep := [], gWd := [], gSlashed := [] }
+
+private def ops1 : List LOp :=
+  [.deposit "s" "a" 40, .delegate "s" "a" "o1" 30, .undelegate "s" "a" "o1" 10 7 "0xh", .blockEnd,
+   .slash "o1" 4 ⟨100000000000000000⟩, .blockEnd, .blockEnd, .withdraw "s" "a" 5]
+
+example : RecInv e1 :=
+  ⟨by unfold NoDup keys; decide, by unfold NoDup keys; decide, by unfold NoDup keys; decide,
+   by intro k r h; simp [e1, find?] at h, by intro k r h; simp [e1, find?] at h,
+   by intro k r h; simp [e1, find?] at h, by intro k1 k2 r1 r2 h; simp [e1, find?] at h⟩
+example : "a" ≠ nativeAID := by decide
+example : (ops1.foldl lstep e1).recs = [] ∧ (ops1.foldl lstep e1).gSlashed = [("a", 8)] ∧
+    net (ops1.foldl lstep e1) "a" = net e1 "a" ∧ value (ops1.foldl lstep e1) "a" = 127 := by decide
 
 end ExoVerif.Ledger
